@@ -99,6 +99,9 @@ def run_one(args):
                 sites = ['%s %s::%s' % (fd.rule, fd.rel, fd.func) for fd in run.findings]
             except AnalysisError as e:
                 code, rules, sites = 2, [], [str(e)]
+            except Exception as e:
+                import traceback
+                code, rules, sites = 2, [], ['INTERNAL ' + traceback.format_exc()[-400:]]
             res.append((prop, code, rules, sites))
     finally:
         shutil.rmtree(tmp, ignore_errors=True)
